@@ -1,9 +1,14 @@
 (* RunC16.v — executable entry for C16: the garbler's outcome as a function
-   of the labels that actually came back.
-   input = C02 input ++ [(returned labels...)];  output = (0 (results...)) | (-1) *)
+   of the BYTES that actually came back after the OT (the returned output
+   labels as they were delivered, corrupted or not), read through the p2p.Conn
+   model (Proto/Conn.v) with the regenerated buffer size and the read
+   fragmentation the harness used.
+   input = C02 input ++ [(returned labels...); (tail bytes...); (read fragments...)]
+   output = (0 (results...)) | (-1); both paths (label list / byte stream) must agree:
+   a disagreement between them is reported as (-2). *)
 From Coq Require Import ZArith NArith List Bool.
-From Mpc Require Import Base.Sx Base.Label Base.Aes Base.Codec Circuit.Circuit Circuit.Garble
-     Circuit.RunC01 Proto.Session Proto.RunC02.
+From Mpc Require Import Gen.Consts Base.Sx Base.Label Base.Aes Base.Codec Circuit.Circuit Circuit.Garble
+     Circuit.RunC01 Proto.Session Proto.RunC02 Proto.Conn Proto.SessionRx.
 Import ListNotations.
 
 Definition run_c16 (inp : sx) : sx :=
@@ -12,8 +17,20 @@ Definition run_c16 (inp : sx) : sx :=
   let rl := getLN (nthx 5 inp) in
   let rnd := fun i => nth i rl 0%N in
   let returned := getLN (nthx 8 inp) in
+  let bytes := getLN (nthx 9 inp) in
+  let frags := getLN (nthx 10 inp) in
   let g := garble (pi_aes key) rnd [] (cc c) in
-  match garbler_finish c g returned with
+  let by_labels := garbler_finish c g returned in
+  let by_bytes := snd (garbler_rx_result (Z.to_N p2p_readBufSize) c g
+                         (r_init (mkT bytes frags false 0))) in
+  let same := match by_labels, by_bytes with
+              | Some a, Some b => forallb (fun p => Bool.eqb (fst p) (snd p)) (combine a b)
+                                  && Nat.eqb (length a) (length b)
+              | None, None => true
+              | _, _ => false
+              end in
+  if negb same then SL [SZ (-2)] else
+  match by_bytes with
   | Some bits => SL [SZ 0; ofLN (garbler_result c bits)]
   | None => SL [SZ (-1)]
   end.
